@@ -3,6 +3,9 @@
 // Contracts for the deductive verification in /verif (comment-only; compiled code is unaffected).
 package standard
 
+// every collaborator the constructor checks for is present (object invariant: proved for the value the constructor returns)
+//@ spec wiredSigner(s *Service) bool = s != nil && s.checker != nil && s.fetcher != nil && s.ruler != nil && s.unlocker != nil
+
 // the account a request addresses: by public key when one is supplied, otherwise by name
 //@ spec resolved(s *Service, name string, pubKey []byte) any = if pubKey == nil then fetchedByName(s.fetcher, name) else fetchedByKey(s.fetcher, bytes(pubKey))
 
@@ -20,25 +23,25 @@ package standard
 //@ ensures [nosig] result1 != nil ==> result0 == nil
 
 //@ func (*Service).fetchAccount
-//@ requires s != nil
+//@ requires wiredSigner(s)
 //@ ensures [resolved] result2 == core.ResultSucceeded ==> result0 != nil && result1 != nil && result1 == resolved(s, name, pubKey) && nameOf(result0) == nameOf(walletOf(result1))
 //@ ensures [none] result2 != core.ResultSucceeded ==> result0 == nil && result1 == nil
 //@ ensures [verdict] result2 == core.ResultSucceeded || result2 == core.ResultDenied || result2 == core.ResultFailed
 
 //@ func (*Service).checkAccess
-//@ requires s != nil
+//@ requires wiredSigner(s)
 //@ ensures [verdict] result == core.ResultSucceeded || result == core.ResultDenied || result == core.ResultFailed
 //@ modifies checkedset, deniedset
 //@ ensures [checked] result == core.ResultSucceeded ==> credentials != nil && (credentials.Client + "|" + accountName + "|" + action) in checkedset
 //@ ensures [monotone] forall k string :: old(k in checkedset) ==> k in checkedset
 
 //@ func (*Service).unlockAccount
-//@ requires s != nil
+//@ requires wiredSigner(s)
 //@ ensures [verdict] result == core.ResultSucceeded || result == core.ResultDenied || result == core.ResultFailed
 //@ ensures [unlocked] result == core.ResultSucceeded ==> wallet != nil && account != nil && (!implements(account, "e2wtypes.AccountLocker") || wasUnlocked(account) || unlockOk(s.unlocker, account))
 
 //@ func (*Service).preCheck
-//@ requires s != nil
+//@ requires wiredSigner(s)
 //@ modifies checkedset, deniedset
 //@ ensures [unlocked] result2 == core.ResultSucceeded ==> (!implements(result1, "e2wtypes.AccountLocker") || wasUnlocked(result1) || unlockOk(s.unlocker, result1))
 //@ ensures [ok] result2 == core.ResultSucceeded ==> result0 != nil && result1 != nil && result1 == resolved(s, name, pubKey) && nameOf(result0) == nameOf(walletOf(result1)) && credentials != nil && ckey(credentials.Client, nameOf(result0), nameOf(result1), action) in checkedset
@@ -47,7 +50,7 @@ package standard
 //@ ensures [monotone] forall k string :: old(k in checkedset) ==> k in checkedset
 
 //@ func (*Service).SignBeaconAttestation
-//@ requires s != nil
+//@ requires wiredSigner(s)
 //@ requires [domaincap] data != nil ==> data.Domain == nil || cap(data.Domain) >= 4
 //@ requires [unlocked] !prelocked && (forall k [48]byte :: !held[k])
 //@ modifies tokroot, db, checkedset, deniedset, held, prelocked
@@ -68,7 +71,7 @@ package standard
 //@ hint-after before:signRoot@1 [sametok] pkOfAcc(account) in tokroot && tokroot[pkOfAcc(account)] == attRootOf(data)
 
 //@ func (*Service).SignBeaconProposal
-//@ requires s != nil
+//@ requires wiredSigner(s)
 //@ requires [domaincap] data != nil ==> data.Domain == nil || cap(data.Domain) >= 4
 //@ requires [unlocked] !prelocked && (forall k [48]byte :: !held[k])
 //@ modifies tokroot, db, checkedset, deniedset, held, prelocked
@@ -89,7 +92,7 @@ package standard
 //@ hint-after before:signRoot@1 [sametok] pkOfAcc(account) in tokroot && tokroot[pkOfAcc(account)] == propRootOf(data)
 
 //@ func (*Service).SignGeneric
-//@ requires s != nil
+//@ requires wiredSigner(s)
 //@ requires [domaincap] data != nil ==> data.Domain == nil || cap(data.Domain) >= 4
 //@ requires [unlocked] !prelocked && (forall k [48]byte :: !held[k])
 //@ modifies tokroot, db, checkedset, deniedset, held, prelocked
@@ -121,7 +124,7 @@ package standard
 // worker 1: resolve, permission-check and unlock the account of every position of the extent
 //@ func (*Service).SignBeaconAttestations$1
 //@ worker i offset entries
-//@ requires s != nil && credentials != nil
+//@ requires wiredSigner(s) && credentials != nil
 //@ requires [extent] 0 <= offset && entries >= 1 && offset + entries <= len(rulesData)
 //@ requires [lens] len(accounts) == len(rulesData) && len(rulesData) <= len(results) && len(rulesData) <= len(data)
 //@ requires [blank] forall j int :: offset <= j && j < offset + entries ==> rulesData[j] == nil
@@ -149,7 +152,7 @@ package standard
 //@ focus src : range
 //@ focus tgt : range
 //@ focus exact : range exact sigalloc frame
-//@ requires s != nil
+//@ requires wiredSigner(s)
 //@ requires [extent] 0 <= offset && entries >= 1 && offset + entries <= len(rulesResults)
 //@ requires [lens] len(rulesResults) <= len(results) && len(signatures) == len(results) && len(data) == len(results)
 //@ requires [verdicts] forall j int :: offset <= j && j < offset + entries ==> rulesResults[j] == rules.UNKNOWN || rulesResults[j] == rules.APPROVED || rulesResults[j] == rules.DENIED || rulesResults[j] == rules.FAILED
@@ -176,7 +179,7 @@ package standard
 //@ hint-after before:signRoot@1 [sametok] attPending(accounts[i], data[i])
 
 //@ func (*Service).SignBeaconAttestations
-//@ requires s != nil
+//@ requires wiredSigner(s)
 //@ requires [lens] len(accountNames) <= len(data) && len(pubKeys) <= len(data)
 //@ requires [domaincap] forall j int :: 0 <= j && j < len(data) && data[j] != nil ==> data[j].Domain == nil || cap(data[j].Domain) >= 4
 //@ requires [unlocked] !prelocked && (forall k [48]byte :: !held[k])
@@ -206,7 +209,7 @@ package standard
 
 //@ func (*Service).Multisign$1
 //@ worker i offset entries
-//@ requires s != nil && credentials != nil
+//@ requires wiredSigner(s) && credentials != nil
 //@ requires [extent] 0 <= offset && entries >= 1 && offset + entries <= len(rulesData)
 //@ requires [lens] len(accounts) == len(rulesData) && len(rulesData) <= len(results) && len(rulesData) <= len(data)
 //@ requires [blank] forall j int :: offset <= j && j < offset + entries ==> rulesData[j] == nil
@@ -229,7 +232,7 @@ package standard
 //@ func (*Service).Multisign$2
 //@ worker i offset entries
 //@ focus exact : range exact sigalloc frame
-//@ requires s != nil
+//@ requires wiredSigner(s)
 //@ requires [extent] 0 <= offset && entries >= 1 && offset + entries <= len(rulesResults)
 //@ requires [lens] len(rulesResults) <= len(results) && len(signatures) == len(results) && len(data) == len(results)
 //@ requires [verdicts] forall j int :: offset <= j && j < offset + entries ==> rulesResults[j] == rules.UNKNOWN || rulesResults[j] == rules.APPROVED || rulesResults[j] == rules.DENIED || rulesResults[j] == rules.FAILED
@@ -253,7 +256,7 @@ package standard
 //@ hint-after before:signRoot@1 [sametok] genPending(accounts[i], data[i])
 
 //@ func (*Service).Multisign
-//@ requires s != nil
+//@ requires wiredSigner(s)
 //@ requires [lens] len(accountNames) <= len(data) && len(pubKeys) <= len(data)
 //@ requires [domaincap] forall j int :: 0 <= j && j < len(data) && data[j] != nil ==> data[j].Domain == nil || cap(data[j].Domain) >= 4
 //@ requires [unlocked] !prelocked && (forall k [48]byte :: !held[k])
